@@ -260,10 +260,12 @@ Definition decl_name (t : stmt) : option string :=
   match t with
   | SOut (EId x) | SOut (EOutput (EId x)) => Some x
   | SOut (EAssign x _) | SOut (EOutput (EAssign x _)) => Some x
+  | SOut (EBuiltin b) | SOut (EOutput (EBuiltin b)) => Some (builtin_name b)   (* `output sum` *)
   | _ => None
   end.
-(* ... and whether that name is a binding when the statement succeeds.  false = known finding
-   F33: `output inf`, `output constants`, `output <built-in>` succeed without recording anything *)
+(* ... and whether that name is a BINDING when the statement succeeds: `inf`, `infinity`,
+   `constants` and the built-in function names are values but not bindings (they are recorded
+   all the same since repo fix 91678e3; before it they were silently skipped: F33) *)
 Definition binding_decl (t : stmt) : bool :=
   match t with
   | SOut (EId x) | SOut (EOutput (EId x)) => negb (special x)
